@@ -34,7 +34,11 @@ from core import Case, Prop, SelfCheckFailure, InfraError
 from gen import hx, unhx, rbytes
 
 import props.c05 as c05
+import props.c06_fixed as c6f
+import props.c07 as c07
 import props.c08 as c08
+import props.c12 as c12
+import props.c18 as c18
 import props.c14 as c14
 import props.c15 as c15
 import props.c16 as c16
@@ -53,6 +57,9 @@ from spacepackets.ecss.req_id import RequestId
 from spacepackets.ecss.fields import PacketFieldEnum
 from spacepackets.cfdp.pdu.header import PduHeader, AbstractPduBase
 from spacepackets.cfdp.pdu.file_directive import FileDirectivePduBase
+from spacepackets.cfdp.pdu import (
+    AckPdu, PromptPdu, KeepAlivePdu, NakPdu, EofPdu, FinishedPdu, MetadataPdu, FileDataPdu, PduFactory,
+)
 from spacepackets.cfdp.lv import CfdpLv
 from spacepackets.cfdp.tlv import (
     CfdpTlv, EntityIdTlv, FlowLabelTlv, FaultHandlerOverrideTlv, FileStoreRequestTlv, FileStoreResponseTlv,
@@ -154,6 +161,20 @@ def _pdu_front(raw, a):
     return h
 
 
+def _reserved(raw, a):
+    r = c18._reserved_of(raw)          # MessageToUserTlv.unpack (both routes) and to_reserved_msg_tlv()
+    if r is not None:
+        c18._view(r)                   # classification queries and all eight getters
+    return r
+
+
+def _holder(raw, a):
+    h = PduFactory.from_raw_to_holder(raw)
+    if h.pdu is not None:
+        h.packet_len, h.pdu_type, h.is_file_directive, h.pdu_directive_type   # views of a held PDU never raise
+    return h
+
+
 _UN = {1: ByteFieldU8.from_u8_bytes, 2: ByteFieldU16.from_u16_bytes, 4: ByteFieldU32.from_u32_bytes,
        8: ByteFieldU64.from_u64_bytes}
 
@@ -195,6 +216,24 @@ DECODE: Dict[str, Callable[[Any, Dict[str, Any]], Any]] = {
     "frame": lambda raw, a: TransferFrame.unpack(raw_frame=raw, frame_type=FrameType(a["frame_type"]),
                                                  frame_properties=c17._props(a["props"])),
 }
+DECODE.update({
+    # stage 2: CFDP PDUs, factory, reserved messages
+    "directive_base": lambda raw, a: FileDirectivePduBase.unpack(raw),
+    "ack": lambda raw, a: AckPdu.unpack(raw),
+    "prompt": lambda raw, a: PromptPdu.unpack(raw),
+    "keep_alive": lambda raw, a: KeepAlivePdu.unpack(raw),
+    "nak": lambda raw, a: NakPdu.unpack(raw),
+    "eof": lambda raw, a: EofPdu.unpack(raw),
+    "finished": lambda raw, a: FinishedPdu.unpack(raw),
+    "metadata": lambda raw, a: MetadataPdu.unpack(raw),
+    "file_data": lambda raw, a: FileDataPdu.unpack(raw),
+    "pdu_type": lambda raw, a: PduFactory.pdu_type(raw),
+    "is_file_directive": lambda raw, a: PduFactory.is_file_directive(raw),
+    "pdu_directive_type": lambda raw, a: PduFactory.pdu_directive_type(raw),
+    "factory": lambda raw, a: PduFactory.from_raw(raw),
+    "factory_holder": _holder,
+    "reserved": _reserved,
+})
 for _k, _cls in _TLV_CLS.items():
     DECODE[_k] = (lambda cls: lambda raw, a: cls.unpack(raw))(_cls)
     DECODE[_k + ".from_tlv"] = (lambda cls: lambda raw, a: cls.from_tlv(CfdpTlv.unpack(raw)))(_cls)
@@ -405,9 +444,10 @@ def fam_pdu(rng) -> Unit:
     h = c05.rand_hdr(rng, dlen=len(body) + 2 * crc)
     h["crc"] = crc
     p = c05.spec_pack(h) + body
+    hl = len(p) - len(body)
     if crc:
-        return Unit(p + crc16(p).to_bytes(2, "big"), {}, [0, 1, 2, 3, len(p) - len(body)], refit_crc, 1)
-    return Unit(p, {}, [0, 1, 2, 3, len(p) - len(body)], None, 1)
+        return Unit(p + crc16(p).to_bytes(2, "big"), {"_hl": hl}, [0, 1, 2, 3, hl], refit_crc, 1)
+    return Unit(p, {"_hl": hl}, [0, 1, 2, 3, hl], None, 1)
 
 
 def fam_lv(rng) -> Unit:
@@ -475,6 +515,49 @@ def fam_frame(rng) -> Unit:
                 None if truncated else 4)
 
 
+def refit_pdu(raw: bytes) -> bytes:
+    return refit_crc(raw) if raw and raw[0] & 2 else raw
+
+
+_PDU_COUNTER = [0]
+
+
+def fam_pdu_kind(kind) -> Callable[[random.Random], Unit]:
+    """a valid PDU of one of the eight kinds, from the owning properties' parameter generators and
+    independent encoders (props.c12.KINDS)"""
+    def gen(rng) -> Unit:
+        _PDU_COUNTER[0] += 1
+        conf = c07.rand_conf(rng) if kind.code is None else c6f.rand_conf(rng)
+        raw = kind.spec(kind.params(rng, conf, _PDU_COUNTER[0]))
+        hl = 4 + 2 * conf["src_w"] + conf["seq_w"]
+        pos = [0, 1, 2, 3] + [p for p in range(hl, min(len(raw), hl + 14))]
+        return Unit(raw, {"_hl": hl, "_fd": kind.code is None}, pos, refit_pdu, 1)
+    return gen
+
+
+def fam_any_pdu(rng) -> Unit:
+    return fam_pdu_kind(rng.choice(c12.KINDS))(rng)
+
+
+def fam_reserved(rng) -> Unit:
+    n = lambda: c18.name(rng, rng.choice([0, 1, 3, 8, 20]))
+    w, q = rng.choice(c18.W), rng.choice(c18.W)
+    v = rng.choice([
+        lambda: c18.v_put_req(w, rng.getrandbits(8 * w), n(), n()),
+        lambda: c18.v_orig(w, rng.getrandbits(8 * w), q, rng.getrandbits(8 * q)),
+        lambda: c18.v_dir_req(n(), n()),
+        lambda: c18.v_dir_resp(rng.randint(0, 1), n(), n()),
+        lambda: c18.MARKER + b"\x0b" + bytes([rng.randint(0, 1)]),
+        lambda: c18.MARKER + b"\x04" + bytes([rng.randint(0, 1)]),
+        lambda: c18.MARKER + b"\x09",
+        lambda: c18.MARKER + b"\x07" + bytes([rng.choice(c18.CC_MEMBERS) << 4 | rng.randint(0, 1) << 2 | rng.randint(0, 3)]),
+        lambda: c18.MARKER + b"\x15" + bytes([rng.randint(0, 3) << 6]),
+        lambda: rbytes(rng, rng.choice([0, 3, 4, 5, 9])),                       # not a reserved message
+    ])()
+    # type, length, marker, message type, the first field octets
+    return Unit(c18.tlv(v), {}, list(range(0, min(2 + len(v), 10))))
+
+
 FAMILIES: Dict[str, Callable[[random.Random], Unit]] = {
     "sph": fam_sph, "tc": fam_tc, "tm": fam_tm, "s17": fam_s17, "s1": fam_s1, "reqid": fam_reqid, "pfe": fam_pfe,
     "cds": fam_cds, "pdu_hdr": fam_pdu_hdr, "pdu": fam_pdu, "lv": fam_lv, "tlv": fam_tlv, "bf": fam_bf,
@@ -482,6 +565,10 @@ FAMILIES: Dict[str, Callable[[random.Random], Unit]] = {
 }
 for _k in _TLV_CLS:
     FAMILIES[_k] = fam_concrete(_k)
+for _kd in c12.KINDS:
+    FAMILIES["pdu:" + _kd.name] = fam_pdu_kind(_kd)
+FAMILIES["any_pdu"] = fam_any_pdu
+FAMILIES["reserved"] = fam_reserved
 
 
 # ---------------------------------------------------------------------------------------------
@@ -508,6 +595,17 @@ def p_tfdf(k: int, u: Unit) -> str:
 
 def p_parser(k: int, u: Unit) -> str:
     return "valid"      # never raises; the op checks that nothing is returned and the prefix is kept
+
+
+def p_directive_base(k: int, u: Unit) -> str:
+    # FileDirectivePduBase.unpack needs the header and the directive code; it does not verify the length
+    return "invalid" if k <= u.cfg["_hl"] else "valid"
+
+
+def p_directive_type(k: int, u: Unit) -> str:
+    if u.cfg["_fd"]:
+        return "invalid" if k < 1 else "valid"        # File Data: None as soon as the type bit can be read
+    return "invalid" if k <= u.cfg["_hl"] else "valid"
 
 
 @dataclass
@@ -541,6 +639,17 @@ KINDS: Dict[str, Kind] = {
     "tfdf": Kind("tfdf", p_tfdf, keys=("truncated", "exact_len", "frame_type")),
     "frame": Kind("frame", keys=("frame_type", "props")),
 }
+KINDS.update({
+    "directive_base": Kind("pdu", p_directive_base),
+    "pdu_type": Kind("any_pdu", p_min(1), short=True), "is_file_directive": Kind("any_pdu", p_min(1), short=True),
+    "pdu_directive_type": Kind("any_pdu", p_directive_type),
+    "factory": Kind("any_pdu"), "factory_holder": Kind("any_pdu", light=True),
+    "reserved": Kind("reserved", short=True),
+})
+PDU_DECODERS = {"ack": "ack", "prompt": "prompt", "keep_alive": "keep_alive", "nak": "nak", "eof": "eof",
+                "finished": "finished", "metadata": "metadata", "file_data": "file_data"}
+for _d, _f in PDU_DECODERS.items():
+    KINDS[_d] = Kind("pdu:" + _f)
 for _k in _TLV_CLS:
     KINDS[_k] = Kind(_k, cheap=_k in ("fault_handler", "fs_request"), short=True)
     KINDS[_k + ".from_tlv"] = Kind(_k, light=True)
@@ -549,7 +658,9 @@ for _k in _TLV_CLS:
 MODEL_ORDER = ["sph", "apid", "parser", "tc", "tm", "s17", "tm_service", "s1", "s1_from_tm", "s1_verif", "reqid", "pfe",
                "cds", "pdu_hdr", "hdr_len", "pdu_front", "dir_front", "lv", "tlv"] + list(_TLV_CLS) + \
               [k + ".from_tlv" for k in _TLV_CLS] + [k + ".holder" for k in _TLV_CLS] + \
-              ["bf_from_bytes", "bf_gen", "bf_un", "uslp_hdr", "uslp_thdr", "uslp_hdr_type", "tfdf", "frame"]
+              ["bf_from_bytes", "bf_gen", "bf_un", "uslp_hdr", "uslp_thdr", "uslp_hdr_type", "tfdf", "frame"] + \
+              ["directive_base", "ack", "prompt", "keep_alive", "nak", "eof", "finished", "metadata", "file_data",
+               "pdu_type", "is_file_directive", "pdu_directive_type", "factory", "factory_holder", "reserved"]
 
 # default configuration for inputs that do not come from a unit (random strings, sweeps)
 DEFAULT_CFG: Dict[str, Callable[[random.Random], Any]] = {
@@ -704,7 +815,8 @@ class C10(Prop):
                         pass    # a fixed frame longer than the managed length: the owning property decides
                     elif dec in ("tfdf",):
                         yield mk(dec, u.raw + sfx, cfg, "valid", "full+suffix")
-                    elif dec == "frame":
+                    elif dec == "frame" or kd.family in ("pdu:nak", "any_pdu"):
+                        # NAK refuses octets behind the declared PDU (documented ValueError, C09); frames: C17
                         yield mk(dec, u.raw + sfx, cfg, "any", "full+suffix")
                     else:
                         yield mk(dec, u.raw + sfx, cfg, "valid" if kd.full == "valid" else "any", "full+suffix")
